@@ -971,6 +971,10 @@ func (rs *runState) exec(task, step int, op core.Op) {
 		if x.running {
 			rs.leaserace(step, op)
 		}
+	case "bdayblock":
+		rs.bdayblock(step, op)
+	case "importkeyb":
+		rs.importkeyb(step, op)
 	case "importkey":
 		if x.running {
 			rs.importkey(step, op)
